@@ -64,7 +64,15 @@ Proof.
   apply le_n_S. apply Nat.mul_le_mono_l. exact H.
 Qed.
 
-(** * Unfolding the two counting functions *)
+Lemma NoDup_snoc' {A} (l : list A) x : NoDup l -> ~ In x l -> NoDup (l ++ [x]).
+Proof.
+  induction l as [|a l IH]; intros Hnd Hx; cbn [app]; [constructor; [intros []|constructor]|].
+  inversion Hnd as [|? ? Ha Hl]; subst. constructor.
+  - intros Hin. apply in_app_or in Hin as [Hin|[<-|[]]]; [contradiction|]. apply Hx. left. reflexivity.
+  - apply IH; [exact Hl|]. intros Hin. apply Hx. right. exact Hin.
+Qed.
+
+(** * Unfolding the two key-collecting functions *)
 Section Count.
   Variable S : tsdoc.
   Variable D : opdoc.
@@ -89,29 +97,46 @@ Section Count.
   Lemma ck_cons k acc x l : collect_keys (Datatypes.S k) D acc (x :: l) = collect_keys (Datatypes.S k) D (ck_step k acc x) l.
   Proof. reflexivity. Qed.
 
-  Definition cf_step (f : nat) (seen : list str) (acc : nat) (sel : selection) : nat :=
+  Definition rk_step (f : nat) (seen : list str) (keys : list str) (sel : selection) : list str :=
     match sel with
-    | SField _ _ _ _ _ => Datatypes.S acc
+    | SField alias name _ _ _ =>
+        let k := match alias with Some a => iname a | None => iname name end in
+        if mem_str k keys then keys else keys ++ [k]
     | SSpread _ name _ =>
-        if mem_str (iname name) seen then acc
+        if mem_str (iname name) seen then keys
         else match frag_get fm (iname name) with
-             | None => acc
-             | Some fr => acc + count_fields f fm (seen ++ [iname name]) (fr_sel fr)
+             | None => keys
+             | Some fr => collect_response_keys f fm (seen ++ [iname name]) (fr_sel fr) keys
              end
-    | SInline _ _ _ sub => acc + count_fields f fm seen sub
+    | SInline _ _ _ sub => collect_response_keys f fm seen sub keys
     end.
 
-  Lemma cf_unfold f seen ss : count_fields (Datatypes.S f) fm seen ss = fold_left (cf_step f seen) (selset_sels ss) 0.
+  Lemma rk_unfold f seen ss keys :
+    collect_response_keys (Datatypes.S f) fm seen ss keys = fold_left (rk_step f seen) (selset_sels ss) keys.
   Proof. reflexivity. Qed.
 
-  Lemma cf_fold f seen l : forall n, fold_left (cf_step f seen) l n = n + fold_left (cf_step f seen) l 0.
+  (** the implementation's keys are never lost either *)
+  Lemma rk_mono : forall f seen ss keys k, mem k keys = true -> mem k (collect_response_keys f fm seen ss keys) = true.
   Proof.
-    induction l as [|x l IH]; intros n; cbn [fold_left]; [lia|].
-    rewrite (IH (cf_step f seen n x)), (IH (cf_step f seen 0 x)).
-    assert (E : cf_step f seen n x = n + cf_step f seen 0 x).
-    { unfold cf_step. destruct x; [lia | | lia].
-      destruct (mem_str (iname name) seen); [lia|]. destruct (frag_get fm (iname name)); lia. }
-    lia.
+    induction f as [|f IH]; intros seen ss keys k H; [exact H|].
+    rewrite rk_unfold. revert keys H. generalize (selset_sels ss) as l.
+    induction l as [|x l IHl]; intros keys H; [exact H|]. cbn [fold_left]. apply IHl.
+    unfold rk_step. destruct x.
+    - destruct (mem_str _ keys); [exact H|]. rewrite mem_app, H. reflexivity.
+    - destruct (mem_str (iname name) seen); [exact H|]. destruct (frag_get fm (iname name)); [apply IH, H | exact H].
+    - apply IH, H.
+  Qed.
+
+  (** the specification's keys are pairwise distinct *)
+  Lemma ck_nodup : forall F acc l, NoDup (fst acc) -> NoDup (fst (collect_keys F D acc l)).
+  Proof.
+    induction F as [|k IH]; intros acc l H; [exact H|].
+    revert acc H. induction l as [|x l IHl]; intros acc H; [rewrite ck_nil; exact H|].
+    rewrite ck_cons. apply IHl. unfold ck_step. destruct x.
+    - cbn [fst]. destruct (mem _ (fst acc)) eqn:Em; [exact H|].
+      apply NoDup_snoc'; [exact H|]. intros Hin. apply mem_In in Hin. congruence.
+    - destruct (mem (iname name) (snd acc)); [exact H|]. destruct (sp_frag D (iname name)); [apply IH; exact H | exact H].
+    - apply IH, H.
   Qed.
 
   (** keys are never lost *)
@@ -178,41 +203,56 @@ Section Subscription.
     destruct (direct_fields root) as [fields|] eqn:E; [|discriminate]. intros _. apply direct_fields_composite. eauto.
   Qed.
 
-  (** ** at most as many response keys as the implementation counts field selections *)
+  (** ** every response key the specification collects is one the implementation collects *)
   Lemma upper : forall f seen root ss,
     chk f S fm vars seen root ss = [] ->
-    forall F acc, (forall n, mem n seen = true -> mem n (snd acc) = true) ->
-      length (fst (collect_keys F D acc (selset_sels ss))) <= length (fst acc) + count_fields f fm seen ss
+    forall F acc keys, (forall n, mem n seen = true -> mem n (snd acc) = true) ->
+      (forall k, mem k (fst acc) = true -> mem k keys = true) ->
+      (forall k, mem k (fst (collect_keys F D acc (selset_sels ss))) = true ->
+                 mem k (collect_response_keys f fm seen ss keys) = true)
       /\ (forall n, mem n (snd acc) = true -> mem n (snd (collect_keys F D acc (selset_sels ss))) = true).
   Proof.
-    induction f as [|f IH]; intros seen root ss H F acc Hincl; [discriminate|].
+    induction f as [|f IH]; intros seen root ss H F acc keys Hincl Hkeys; [discriminate|].
     pose proof (chk_composite _ _ _ _ H) as Hcomp.
     cbn [check_selection_set] in H. unfold check_selection_set_body in H.
     destruct (direct_fields root) as [fields|]; [|discriminate].
     pose proof (flat_map_nil _ _ H) as Hall. clear H.
-    rewrite cf_unfold. destruct F as [|k]; [cbn; split; [lia | auto]|].
-    revert acc Hincl Hall. generalize (selset_sels ss) as l. induction l as [|x l IHl]; intros acc Hincl Hall.
-    - rewrite ck_nil. cbn. split; [lia | auto].
-    - rewrite ck_cons. cbn [fold_left]. rewrite cf_fold.
-      assert (Hstep : length (fst (ck_step D k acc x)) <= length (fst acc) + cf_step D f seen 0 x
+    rewrite rk_unfold. destruct F as [|k]; [cbn [collect_keys]; split; [|auto]|].
+    { intros k0 Hk0. rewrite <- rk_unfold. apply rk_mono, Hkeys, Hk0. }
+    revert acc keys Hincl Hkeys Hall. generalize (selset_sels ss) as l. induction l as [|x l IHl]; intros acc keys Hincl Hkeys Hall.
+    - rewrite ck_nil. cbn [fold_left]. split; auto.
+    - rewrite ck_cons. cbn [fold_left].
+      assert (Hstep : (forall k0, mem k0 (fst (ck_step D k acc x)) = true -> mem k0 (rk_step D f seen keys x) = true)
                       /\ (forall n, mem n (snd acc) = true -> mem n (snd (ck_step D k acc x)) = true)).
-      { specialize (Hall x (or_introl eq_refl)). unfold ck_step, cf_step. destruct x as [al nm ar di su|p name dirs|p tc dirs sub].
-        - cbn [fst snd]. split; [|auto]. destruct (mem _ (fst acc)); [lia | rewrite app_length; cbn; lia].
-        - destruct (mem (iname name) (snd acc)) eqn:Ev; [split; [lia | auto]|].
+      { specialize (Hall x (or_introl eq_refl)). unfold ck_step, rk_step. destruct x as [al nm ar di su|p name dirs|p tc dirs sub].
+        - cbn [fst snd]. split; [|auto]. intros k0 Hk0.
+          set (key := match al with Some a => iname a | None => iname nm end) in *.
+          assert (Hk0' : mem k0 (fst acc) = true \/ k0 = key).
+          { destruct (mem key (fst acc)); [left; exact Hk0|]. rewrite mem_app in Hk0. apply orb_true_iff in Hk0 as [Hk0|Hk0]; [left; exact Hk0|].
+            right. cbn [mem existsb] in Hk0. rewrite orb_false_r in Hk0. apply str_eqb_eq, Hk0. }
+          destruct (mem_str key keys) eqn:Ek.
+          + destruct Hk0' as [Hk0'| ->]; [apply Hkeys, Hk0' | exact Ek].
+          + rewrite mem_app. destruct Hk0' as [Hk0'| ->]; [rewrite (Hkeys _ Hk0'); reflexivity|].
+            cbn [mem existsb]. rewrite str_eqb_refl. apply orb_true_r.
+        - destruct (mem (iname name) (snd acc)) eqn:Ev.
+          { split; [|auto]. intros k0 Hk0. specialize (Hkeys k0 Hk0).
+            destruct (mem_str (iname name) seen); [exact Hkeys|]. destruct (frag_get fm (iname name)); [apply rk_mono, Hkeys | exact Hkeys]. }
           destruct (spread_checked _ _ _ _ _ _ _ Hcomp Hall) as [Hs [target [cond [Efg [Esp Hrec]]]]].
           rewrite Hs, Efg, Esp.
-          destruct (IH _ _ _ Hrec k (fst acc, snd acc ++ [iname name])) as [H1 H2].
+          destruct (IH _ _ _ Hrec k (fst acc, snd acc ++ [iname name]) keys) as [H1 H2].
           { intros n Hn. cbn [snd]. rewrite mem_app in *. apply orb_true_iff in Hn as [Hn|Hn]; [rewrite (Hincl n Hn); reflexivity|].
             rewrite Hn. apply orb_true_r. }
+          { exact Hkeys. }
           cbn [fst snd] in H1, H2. split; [exact H1|].
           intros n Hn. apply H2. rewrite mem_app, Hn. reflexivity.
         - destruct (inline_checked _ _ _ _ _ _ _ _ Hcomp Hall) as [root' Hrec].
-          destruct (IH _ _ _ Hrec k acc Hincl) as [H1 H2]. split; [exact H1 | exact H2]. }
+          destruct (IH _ _ _ Hrec k acc keys Hincl Hkeys) as [H1 H2]. split; [exact H1 | exact H2]. }
       destruct Hstep as [Hs1 Hs2].
-      destruct (IHl (ck_step D k acc x)) as [H1 H2].
+      destruct (IHl (ck_step D k acc x) (rk_step D f seen keys x)) as [H1 H2].
       + intros n Hn. apply Hs2, Hincl, Hn.
+      + exact Hs1.
       + intros y Hy. apply Hall. right. exact Hy.
-      + split; [lia|]. intros n Hn. apply H2, Hs2, Hn.
+      + split; [exact H1|]. intros n Hn. apply H2, Hs2, Hn.
   Qed.
 
   (** ** at least one response key *)
@@ -268,9 +308,13 @@ Proof.
   { unfold doc_ops in Ho. apply in_flat_map in Ho as [d [Hd Ho]].
     destruct d as [o'|f'|i]; cbn in Ho; try contradiction. destruct Ho as [<-|[]]. apply (Hne _ Hd). }
   set (F := Datatypes.S (Datatypes.S (length (doc_fragdefs D)) * doc_depth_sp D)).
-  destruct (upper S D (op_vars o) Hu Ht _ _ _ _ Hsel F ([], [])) as [Hup _]; [intros n Hn; discriminate Hn|].
+  destruct (upper S D (op_vars o) Hu Ht _ _ _ _ Hsel F ([], []) []) as [Hup _];
+    [intros n Hn; discriminate Hn | intros k Hk; discriminate Hk|].
+  assert (Hup' : length (fst (collect_keys F D ([], []) (selset_sels (op_sel o)))) <= 1).
+  { etransitivity; [|exact Hcount]. apply NoDup_incl_length; [apply ck_nodup; constructor|].
+    intros k Hk. apply mem_In. apply Hup. apply mem_In, Hk. }
   pose proof (lower S D (op_vars o) Hu Ht Hfn _ _ _ _ Hsel Hon F ([], []) (spec_fuel_ge D) (fun n => eq_refl)) as Hlow.
-  cbn [fst length Nat.add] in Hup. apply Nat.eqb_eq. lia.
+  apply Nat.eqb_eq. lia.
 Qed.
 
 Lemma rule_eq_dec (a b : rule) : {a = b} + {a <> b}.
